@@ -6,6 +6,7 @@ import (
 	"context"
 	"encoding/hex"
 	"net"
+	"strconv"
 	"strings"
 
 	"github.com/cossacklabs/acra/crypto"
@@ -741,4 +742,63 @@ func VerifC11_MySQLMasking() {
 	} else {
 		verif.Assert(verif.Eq(out, want), "other-client-gets-window-and-mask")
 	}
+}
+
+// VerifC09_MySQLPreparedSearchNumeric: the searched value bound as a binary-protocol integer (TINY, SHORT, LONG).
+// The blind index put into the forwarded parameter is the one a row carries whose plaintext is the decimal text of
+// that number, for every value including the negative ones.
+func VerifC09_MySQLPreparedSearchNumeric() {
+	store := verifKeys()
+	env := config.CryptoEnvelopeTypeAcraBlock
+	setting := &config.BasicColumnEncryptionSetting{Name: "secret", UsedClientID: "A", CryptoEnvelope: &env, Searchable: true}
+	h, ctx, parser := verifProxyWith(store, "A", setting)
+	var text string
+	var typ base_mysql.Type
+	var raw []byte
+	switch verif.Choose("type", 0, 2) {
+	case 0:
+		v := int8(verif.U8("tiny"))
+		text, typ, raw = strconv.Itoa(int(v)), base_mysql.TypeTiny, []byte{byte(v)}
+	case 1:
+		v := int16(verif.U16("short"))
+		text, typ, raw = strconv.Itoa(int(v)), base_mysql.TypeShort, []byte{byte(v), byte(uint16(v) >> 8)}
+	case 2:
+		v := int32(verif.U32("long"))
+		// keep the decimal text short: three interesting regions
+		verif.Assume(verif.Or(verif.And(v >= -9, v <= 9), v == -2147483648, v == 2147483647))
+		u := uint32(v)
+		text, typ, raw = strconv.Itoa(int(v)), base_mysql.TypeLong, []byte{byte(u), byte(u >> 8), byte(u >> 16), byte(u >> 24)}
+	}
+	obj, changed, err := h.queryObserverManager.OnQuery(ctx, emysql.NewOnQueryObjectFromQuery(verifFill("insert into t (id, secret, plain) values (1, '%s', 'keep')", []byte(text)), parser))
+	if err != nil || !changed {
+		verif.Assert(false, "write-rewritten")
+		return
+	}
+	stored, ok := verifStoredHexLiteral(obj.Query())
+	if !ok {
+		verif.Assert(false, "protected-value-is-a-hex-literal")
+		return
+	}
+	if !verifPrepare(h, ctx, parser, 1, "select id from t where secret = ?", 1) {
+		verif.Assert(false, "prepared")
+		return
+	}
+	data := []byte{CommandStatementExecute, 1, 0, 0, 0, 0, 1, 0, 0, 0, 0, 1, byte(typ), 0}
+	data = append(data, raw...)
+	packet := NewPacket()
+	packet.SetData(data)
+	_, err = h.handleStatementExecute(ctx, packet)
+	verif.Reach("executed")
+	verif.Assert(err == nil, "execute-no-error")
+	if err != nil {
+		return
+	}
+	// the rewritten parameter is a length-encoded string now: find the index bytes at the end of the payload
+	out := packet.GetData()
+	hs := 33
+	verif.Assert(len(out) >= hs && len(stored) >= hs, "payload-holds-an-index")
+	if len(out) < hs || len(stored) < hs {
+		return
+	}
+	verif.Assert(verif.Eq(out[len(out)-hs:], stored[:hs]), "search-index-is-the-stored-prefix")
 }
